@@ -64,6 +64,14 @@ func (w *World) StartFault(t *Tun, kind string) {
 			w.Log(Event{Actor: "fault", Op: kind})
 			t.RevSrv.GracefulStop()
 			w.Log(Event{Actor: "fault", Op: "gstop-returned"})
+		case kind == "gstop-stop":
+			// the documented way to bound a graceful drain: GracefulStop is pending, then Stop
+			w.WaitUntil("fault-ready", func() bool { return true })
+			w.Log(Event{Actor: "fault", Op: kind})
+			g := w.Go("fault:gstop-stop:graceful", false, func() { t.RevSrv.GracefulStop() })
+			w.WaitUntil("gstop-pending", func() bool { return g.Done || (g.Parked && g.Kind == "wgwait") })
+			t.RevSrv.Stop()
+			w.Log(Event{Actor: "fault", Op: "stop-returned"})
 		case kind == "openctx":
 			w.WaitUntil("fault-ready", func() bool { return true })
 			w.Log(Event{Actor: "fault", Op: kind})
